@@ -110,7 +110,7 @@ class _ParseState:
         return object_type
 
 
-def parse(schema: Dict[str, Any]) -> List[Element]:
+def parse(schema: Union[bool, Dict[str, Any]]) -> List[Element]:
     """Parse a JSON Schema document to Element format.
 
     Assumes references are already resolved, and that any ``"object"`` schemas
@@ -123,9 +123,11 @@ def parse(schema: Dict[str, Any]) -> List[Element]:
         followed by each element in the top-level schema ``"definitions"``.
     """
     state = _ParseState()
+    # A boolean is a whole document too; it has no definitions.
+    definitions = schema.get("definitions", {}) if isinstance(schema, dict) else {}
     return [parse_element(schema, state)] + [
         parse_element(definition, state)
-        for definition in schema.get("definitions", {}).values()
+        for definition in definitions.values()
         if isinstance(definition, (dict, bool, Element))
     ]
 
